@@ -255,6 +255,11 @@ func catalogue() []entry {
 		mk("clone.GoMap[string](Given[int])", ms(gInt)),
 		mk("clone.GoMap[int](Given[string])", mi(gStr)),
 		mk("clone.GoMap[valKey](Given[int])", clone.GoMap(clone.Given[valKey](), gInt)),
+		// keys with storage behind them: the key instance has to be applied as well
+		mk("clone.GoMap[*int](Ptr(Given[int]);Given[int])", clone.GoMap(ptr(gInt), gInt)),
+		mk("clone.GoMap[*int](Ptr(Given[int]);Slice(Given[int]))", clone.GoMap(ptr(gInt), sl(gInt))),
+		mk("clone.GoMap[Tuple2[string;*int]](Tuple2(Given[string];Ptr(Given[int]));Given[string])", clone.GoMap(clone.Tuple2(gStr, ptr(gInt)), gStr)),
+		mk("clone.Slice(GoMap[*int](Ptr(Given[int]);Ptr(Given[int])))", sl(clone.GoMap(ptr(gInt), ptr(gInt)))),
 		mk("clone.Option(Given[int])", op(gInt)),
 		mk("clone.HCons(Given[int];HNil)", hc(gInt, clone.HNil)),
 		mk("clone.HCons(Slice(Given[int]);HNil)", hc(sl(gInt), clone.HNil)),
